@@ -1276,6 +1276,7 @@ class Interp:
                 except _Continue:
                     continue
         items = self.iterate_all(it, lazy_exc=True)
+        items = self.any_set_order(it, items)
         pending = items.exc if isinstance(items, _Items) else None
         for x in items:
             self.assign_target(s.target, x, env)
@@ -1345,6 +1346,20 @@ class Interp:
             self.path.oblige(f"{name}:iteration-end#{k}", "loop-inv-step", truthy(self.eval_spec(cl, ienv2)), detail=cl)
         self.path.completed_by_cut = True  # (vacuity guard: this path did reach its end - the end of the arbitrary iteration)
         raise Abort()  # the arbitrary iteration is done; the continuation is covered by the exit branch
+
+    def any_set_order(self, source, items):
+        """The iteration order of a set is not defined by the language (for strings it depends on the per-process hash seed): an order-sensitive consumer (a `for`
+        statement, list(), tuple(), a list comprehension) may see the elements in ANY order - every permutation is a path (up to 4 elements; for larger sets the one
+        order explored is recorded as a bound)."""
+        if not isinstance(source, (set, frozenset)) or len(items) < 2 or self.spec:
+            return items
+        if len(items) <= 4:
+            import itertools
+
+            perms = [list(p) for p in itertools.permutations(items)]
+            return perms[self.path.choose([(k, True) for k in range(len(perms))], "set-order")]
+        self.path.bounded_inputs.add("iteration over a set of more than 4 elements: one order explored")
+        return items
 
     def iterate_all(self, v, lazy_exc=False):
         """Materialise an iterable into a python list of values (concrete structure required)."""
@@ -1691,7 +1706,7 @@ class Interp:
 
     def e_ListComp(self, n, env):
         out = []
-        self.comp(n.generators, 0, Env(parent=env, module=env.module), lambda e: out.append(self.eval(n.elt, e)))
+        self.comp(n.generators, 0, Env(parent=env, module=env.module), lambda e: out.append(self.eval(n.elt, e)), ordered=True)
         return out
 
     def e_SetComp(self, n, env):
@@ -1733,7 +1748,7 @@ class Interp:
         self.comp(n.generators, 0, Env(parent=env, module=env.module), add)
         return out
 
-    def comp(self, gens, k, env, emit):
+    def comp(self, gens, k, env, emit, ordered=False):
         if k == len(gens):
             emit(env)
             return
@@ -1742,6 +1757,8 @@ class Interp:
         if isinstance(it, _GenExp):
             it = self.genexp_list(it)
         items = self.iterate_all(it)
+        if ordered:
+            items = self.any_set_order(it, items)
         if self.cover_ctx is not None and self.spec and k == 0 and not getattr(self, "_in_quant", 0):
             # vacuity guard: a quantification over a collection that is empty on every path says nothing
             key = (self.cover_ctx, "for " + ast.unparse(g.target) + " in " + ast.unparse(g.iter)[:140])
@@ -1749,7 +1766,7 @@ class Interp:
         for x in items:
             self.assign_target(g.target, x, env)
             if all(self.branch_truthy(self.eval(c, env)) for c in g.ifs):
-                self.comp(gens, k + 1, env, emit)
+                self.comp(gens, k + 1, env, emit, ordered)
 
     def genexp_list(self, g: "_GenExp"):
         out = []
